@@ -160,6 +160,10 @@ _NP_FUNCS = {
     "diag": lambda a: np.diag(_arr(a)),
     "swapaxes": lambda a, i, j: np.swapaxes(_arr(a), i, j),
     "cross": lambda a, b: _cross(_arr(a), _arr(b)),
+    "sqrt": lambda a: _opaque("sqrt", a),
+    "abs": lambda a: _opaque("abs", a),
+    "absolute": lambda a: _opaque("abs", a),
+    "einsum": lambda spec, *ops: _einsum(spec, *[_arr(o) for o in ops]),
 }
 _METHODS = {
     "reshape": lambda a, *shp, order="C": a.reshape(*shp, order=_order(order)),
@@ -186,6 +190,46 @@ def _arr(x):
     if isinstance(x, (list, tuple)):
         return np.array([_arr(e) if isinstance(e, (list, tuple, np.ndarray)) else Sym.const(e) for e in x], dtype=object)
     return np.array(Sym.const(x), dtype=object)
+
+
+def _opaque(fname, a):
+    """An uninterpreted function applied entry-wise: equal only to itself applied to an equal argument."""
+    if isinstance(a, np.ndarray):
+        out = np.empty(a.shape, dtype=object)
+        for idx in np.ndindex(*a.shape):
+            out[idx] = Sym.atom(f"{fname}({Sym.const(a[idx])!r})")
+        return out
+    return Sym.atom(f"{fname}({Sym.const(a)!r})")
+
+
+def _einsum(spec, *ops):
+    if "->" not in spec or "." in spec:
+        raise NotSymbolic("implicit / ellipsis einsum")
+    ins, outs = spec.replace(" ", "").split("->")
+    ins = ins.split(",")
+    if len(ins) != len(ops):
+        raise NotSymbolic("einsum arity")
+    dims = {}
+    for sub, op in zip(ins, ops):
+        if len(sub) != op.ndim:
+            raise NotSymbolic("einsum subscripts")
+        for ch, n in zip(sub, op.shape):
+            if dims.setdefault(ch, n) != n:
+                raise NotSymbolic("einsum dimension mismatch")
+    letters = sorted(dims)
+    res = np.empty([dims[c] for c in outs], dtype=object)
+    for idx in np.ndindex(*res.shape) if outs else [()]:
+        res[idx] = Sym.const(0)
+    import itertools
+
+    for combo in itertools.product(*[range(dims[c]) for c in letters]):
+        pos = dict(zip(letters, combo))
+        term = Sym.const(1)
+        for sub, op in zip(ins, ops):
+            term = term * Sym.const(op[tuple(pos[c] for c in sub)])
+        oi = tuple(pos[c] for c in outs)
+        res[oi] = res[oi] + term
+    return res if outs else res[()]
 
 
 def _cross(a, b):
@@ -342,6 +386,8 @@ class SymEval:
             if f.id == "list" and len(n.args) == 1:
                 v = self.eval(n.args[0])
                 return list(v) if not isinstance(v, np.ndarray) else list(v)
+            if f.id == "abs" and len(n.args) == 1:
+                return _opaque("abs", self.eval(n.args[0]))
             if f.id == "len" and len(n.args) == 1:
                 return len(self.eval(n.args[0]))
             if f.id == "range":
